@@ -65,6 +65,7 @@ var props = []propSpec{
 			{Name: "HarnessC01Array", Bounds: "items none / single L3 / tuple of 1-2 L3; additionalItems absent/true/false/L3; min/maxItems picks 0..3; uniqueItems; arrays of 0-3 elements from {pick number, \"a\"}", BoundsThorough: "tuples up to 3, arrays of 0-4 elements from {pick number, \"a\", null}, type keyword free"},
 			{Name: "HarnessC01UniqueComposite", Bounds: "uniqueItems over 2 composite items drawn from 10 arrays/objects whose textual renderings coincide pairwise, plus an optional scalar"},
 			{Name: "HarnessC01Object", Bounds: "properties{a:L3} + one of 12 features (second property, patternProperties, additionalProperties true/false/L3, required, min/maxProperties picks, dependencies property/schema, type); members a, ab, b, c with forked presence", BoundsThorough: "two features combined"},
+			{Name: "HarnessC01ObjectSpecials", Bounds: "additionalProperties:false with members drawn from {a (declared), id, $schema, x, ids}; required [a, b] where the property a carries a default, members a / b present or absent"},
 			{Name: "HarnessC01Composition", Bounds: "allOf/anyOf/oneOf of 1-2 leaves of L6 (15 variants), not L6; instance scalar / [] / {}", BoundsThorough: "1-3 leaves"},
 			{Name: "HarnessC01Nested", ThoroughOnly: true, Bounds: "depth 2-3 nestings: object->array->object, array->object(patternProperties)->array, allOf[object, anyOf[...]], oneOf of array schemas next to not"},
 			{Name: "HarnessC01Enum", Bounds: "enum of 1-2 values from scalars, [num], {a:num}; instance likewise"},
